@@ -131,6 +131,9 @@ def check_config(ctx: Ctx) -> None:
     ctx.note("options_fields", len(opt_fields))
     ctx.require("R-CONFIG", "FlowmarkConfig fields", len(cfg_fields), 6)
     pa = find_parse_args(ctx)
+    if pa.name == "main":
+        raise AnalysisError("the argument parsers are built in main itself: there is no parse function whose result (options, explicit flags, "
+                            "auto) the precedence rules could follow into the merge")
     pflow = prog.flow(pa)
     pms = parsers_in(repo, pa)
     from .optflow import split_parsers
